@@ -271,6 +271,9 @@ func (ev *Evaluator) assign(env *Env, s *ast.AssignStmt) {
 			idx := ev.resolve(ev.expr(env, re.Index))
 			v, ok := ev.index(re.Pos(), x, idx, info.TypeOf(re))
 			vals = []Value{v, ok}
+		case *ast.TypeAssertExpr:
+			v, ok := ev.typeAssert(env, re)
+			vals = []Value{v, ok}
 		case *ast.UnaryExpr:
 			if re.Op == token.ARROW {
 				ch, ok := ev.expr(env, re.X).(*ChanVal)
@@ -358,6 +361,37 @@ func (ev *Evaluator) switchStmt(env *Env, s *ast.SwitchStmt) ctrl {
 		return ev.caseBody(e, deflt)
 	}
 	return ctrl{}
+}
+
+// typeAssert: x.(T) for an error value whose dynamic type is known (ErrVal.Dyn) or nil.
+func (ev *Evaluator) typeAssert(env *Env, e *ast.TypeAssertExpr) (Value, bool) {
+	v := ev.resolve(ev.expr(env, e.X))
+	info := env.pkg.TypesInfo
+	tv, ok := info.Types[e.Type]
+	if !ok || !tv.IsType() {
+		ev.fail(e.Pos(), "type assertion to an unresolved type")
+	}
+	want := types.TypeString(tv.Type, nil)
+	switch xv := v.(type) {
+	case Nil:
+		return ev.zero(e.Pos(), tv.Type), false
+	case ErrVal:
+		if xv.Dyn == "" {
+			ev.fail(e.Pos(), "type assertion on an error of unknown dynamic type")
+		}
+		if xv.Dyn == want {
+			if xv.Concrete != nil {
+				return xv.Concrete, true
+			}
+			return xv, true
+		}
+		if _, isIface := tv.Type.Underlying().(*types.Interface); isIface {
+			ev.fail(e.Pos(), "type assertion to an interface type")
+		}
+		return ev.zero(e.Pos(), tv.Type), false
+	}
+	ev.fail(e.Pos(), "type assertion on %s", Show(v))
+	return nil, false
 }
 
 // typeSwitch supports switches over an error value whose dynamic type is known (ErrVal.Dyn) or nil.
